@@ -141,3 +141,36 @@ func verifC14CallSingle(n int) {
 		verifAssert(w.Count() == 0 && len(w.queue) == 0, "pool_drains_to_zero")
 	})
 }
+
+// C14 wait_recheck: Wait returns only when no worker is running. A woken Wait must re-check the count
+// after it re-acquires the mutex: here the last worker exits (count 1 -> 0, broadcast) and a new worker is
+// started (count 0 -> 1) before or after the waiter gets the mutex back.
+func Harness_C14_wait_recheck() {
+	var w Workers
+	Harness_helper_initCond(&w)
+	w.count = 1
+	verifDaemon("Harness_C14_wait_recheck$1") // legitimately parked if the new worker started first
+	retStep, p2Step := 0, 0
+	go func() {
+		w.Wait()
+		retStep = verifStep()
+	}()
+	go func() {
+		w.mutex.Lock()
+		w.count--
+		if w.count == 0 {
+			w.cond.Broadcast()
+		}
+		w.mutex.Unlock()
+		w.mutex.Lock()
+		w.count++
+		p2Step = verifStep()
+		w.mutex.Unlock()
+	}()
+	verifFinally(func() {
+		if retStep != 0 {
+			verifAssert(p2Step == 0 || p2Step > retStep, "wait_returns_only_with_zero_workers")
+			verifReach("returned")
+		}
+	})
+}
